@@ -47,6 +47,9 @@ def _menu(client):
         for hl in (req_like, "BAD", "WRONGROLE"):
             for es in (False, True):
                 m.append(("send_headers:%d:%s:%d" % (sid, hl, es), "send_headers", (sid, hl, es)))
+        if sid in (1, 3):
+            # valid list, priority weight outside 1..256: refused after the stream object may already exist
+            m.append(("send_headers:%d:%s:w300" % (sid, req_like), "send_headers_w300", (sid, req_like)))
         for size in ("0", "1", "W", "W+1", "F+1"):
             m.append(("send_data:%d:%s" % (sid, size), "send_data", (sid, size, False, None)))
         m.append(("send_data:%d:0:es" % sid, "send_data", (sid, "0", True, None)))
@@ -240,6 +243,11 @@ class Spec:
             sid, hl, es = spec
             args = (sid, self._hdrs(hl))
             kw = {"end_stream": es}
+        elif method == "send_headers_w300":
+            sid, hl = spec
+            method = "send_headers"
+            args = (sid, self._hdrs(hl))
+            kw = {"priority_weight": 300}
         elif method == "send_headers_sized":
             d, prio = spec
             method = "send_headers"
